@@ -12,6 +12,33 @@ use crate::state::flags::*;
 use crate::helpers::macros::calculate_rm_r;
 use crate::helpers::macros::fatal_error;
 
+/// SHL of a `bits`-wide operand (zero-extended in `d`) by the count `s` as the CPU does it:
+/// the count is masked to 5 bits (6 bits for 64-bit operands); a masked count of 0 leaves the
+/// operand and all flags untouched. Returns the result and the CF/OF flags to set.
+fn shl_bits(d: u64, s: u8, bits: u32) -> (u64, u64) {
+    let count = (s & if bits == 64 { 0x3f } else { 0x1f }) as u32;
+    if count == 0 {
+        return (d, FLAGS_UNAFFECTED);
+    }
+
+    let mask = if bits == 64 { u64::MAX } else { (1u64 << bits) - 1 };
+    let result = if count < bits { (d << count) & mask } else { 0 };
+
+    // CF is the last bit shifted out, i.e. bit `bits - count` of the operand
+    let cf = count <= bits && (d >> (bits - count)) & 1 != 0;
+    // OF is only defined for 1-bit shifts: most significant bit of the result XOR CF
+    let of = count == 1 && ((result >> (bits - 1)) & 1 != 0) != cf;
+
+    let mut flags = 0;
+    if cf {
+        flags |= FLAG_CF;
+    }
+    if of {
+        flags |= FLAG_OF;
+    }
+    (result, flags)
+}
+
 impl Axecutor {
     pub(crate) fn mnemonic_shl(&mut self, i: Instruction) -> Result<(), AxError> {
         debug_assert_eq!(i.mnemonic(), Shl);
@@ -40,23 +67,9 @@ impl Axecutor {
         debug_assert_eq!(i.code(), Shl_rm8_imm8);
 
         calculate_rm_imm![u8f; self; i; |d: u8, s: u8| {
-            assert_ne!(s, 1, "SHL r/m8, imm8 with immediate 1 should be handled by opcode SHL r/m8, 1");
-
-            if s == 0 {
-                return (d, FLAGS_UNAFFECTED);
-            }
-
-            match d.checked_shl((s&0x1f) as u32) {
-                Some(v) => {
-                    let cf = if d & (0x80 >> ((s-1) & 0x1f)) == 0 {0} else {FLAG_CF};
-
-                    (v, cf)
-                },
-                None => {
-                    // Overflow flag is only defined for shifts of 1, which are handled by another opcode
-                    (0, if s == 8 && d & 1 == 1 {FLAG_CF} else {0})}
-            }
-        }; (set: FLAG_PF | FLAG_ZF | FLAG_SF; clear: FLAG_CF)]
+            let (result, flags) = shl_bits(d as u64, s, 8);
+            (result as u8, flags)
+        }; (set: FLAG_PF | FLAG_ZF | FLAG_SF; clear: FLAG_CF | FLAG_OF)]
     }
 
     /// SHL r/m16, imm8
@@ -66,23 +79,9 @@ impl Axecutor {
         debug_assert_eq!(i.code(), Shl_rm16_imm8);
 
         calculate_rm_imm![u16f; u8; self; i; |d: u16, s: u8| {
-            assert_ne!(s, 1, "SHL r/m16, imm8 with immediate 1 should be handled by opcode SHL r/m16, 1");
-
-            if (s&0x1f) == 0 {
-                return (d, FLAGS_UNAFFECTED);
-            }
-
-            match d.checked_shl((s&0x1f) as u32) {
-                Some(v) => {
-                    let cf = if d & (0x8000 >> ((s-1) & 0x1f)) == 0 {0} else {FLAG_CF};
-
-                    (v, cf)
-                },
-                None => {
-                    // Overflow flag is only defined for shifts of 1, which are handled by another opcode
-                    (0, if s == 16 && d & 1 == 1 {FLAG_CF} else {0})}
-            }
-        }; (set: FLAG_PF | FLAG_ZF | FLAG_SF; clear: FLAG_CF)]
+            let (result, flags) = shl_bits(d as u64, s, 16);
+            (result as u16, flags)
+        }; (set: FLAG_PF | FLAG_ZF | FLAG_SF; clear: FLAG_CF | FLAG_OF)]
     }
 
     /// SHL r/m32, imm8
@@ -92,22 +91,9 @@ impl Axecutor {
         debug_assert_eq!(i.code(), Shl_rm32_imm8);
 
         calculate_rm_imm![u32f; u8; self; i; |d: u32, s: u8| {
-            assert_ne!(s, 1, "SHL r/m32, imm8 with immediate 1 should be handled by opcode SHL r/m32, 1");
-
-            if (s&0x1f) == 0 {
-                return (d, FLAGS_UNAFFECTED);
-            }
-
-            match d.checked_shl((s&0x1f) as u32) {
-                Some(v) => (
-                    v,
-                    if d & (0x80000000u32.wrapping_shr(((s-1) & 0x1f) as u32)) == 0 {0} else {FLAG_CF}
-                ),
-                None => {
-                    panic!("u8 s & 0x1f should never be >=32");
-                }
-            }
-        }; (set: FLAG_PF | FLAG_ZF | FLAG_SF; clear: FLAG_CF)]
+            let (result, flags) = shl_bits(d as u64, s, 32);
+            (result as u32, flags)
+        }; (set: FLAG_PF | FLAG_ZF | FLAG_SF; clear: FLAG_CF | FLAG_OF)]
     }
 
     /// SHL r/m64, imm8
@@ -117,22 +103,9 @@ impl Axecutor {
         debug_assert_eq!(i.code(), Shl_rm64_imm8);
 
         calculate_rm_imm![u64f; u8; self; i; |d: u64, s: u8| {
-            assert_ne!(s, 1, "SHL r/m64, imm8 with immediate 1 should be handled by opcode SHL r/m64, 1");
-
-            if s&0x3f == 0 {
-                return (d, FLAGS_UNAFFECTED);
-            }
-
-            match d.checked_shl((s&0x3f) as u32) {
-                Some(v) => (
-                    v,
-                    if d & (0x8000000000000000u64.wrapping_shr(((s-1) & 0x3f) as u32)) == 0 {0} else {FLAG_CF}
-                ),
-                None => {
-                    panic!("u64 s & 0x1f should never be >=64");
-                }
-            }
-        }; (set: FLAG_PF | FLAG_ZF | FLAG_SF; clear: FLAG_CF)]
+            let (result, flags) = shl_bits(d as u64, s, 64);
+            (result as u64, flags)
+        }; (set: FLAG_PF | FLAG_ZF | FLAG_SF; clear: FLAG_CF | FLAG_OF)]
     }
 
     /// SHL r/m8, 1
@@ -210,20 +183,8 @@ impl Axecutor {
         debug_assert_eq!(i.code(), Shl_rm8_CL);
 
         calculate_rm_r![u8f; self; i; |d: u8, s: u8| {
-            if s&0x1f == 0 {
-                return (d, FLAGS_UNAFFECTED);
-            }
-
-            match d.checked_shl((s&0x1f) as u32) {
-                Some(v) => (
-                    v,
-                    if d & (0x80u8.wrapping_shr(((s-1) & 0x1f) as u32)) == 0 {0} else {FLAG_CF} |
-                    if (d & 0x40 == 0) == (d & 0x80 == 0) {0} else {FLAG_OF}
-                ),
-                None => {
-                    (0, if s == 8 && d & 1 == 0 {0} else {FLAG_CF})
-                }
-            }
+            let (result, flags) = shl_bits(d as u64, s, 8);
+            (result as u8, flags)
         }; (set: FLAG_PF | FLAG_ZF | FLAG_SF; clear: FLAG_CF | FLAG_OF)]
     }
 
@@ -234,20 +195,8 @@ impl Axecutor {
         debug_assert_eq!(i.code(), Shl_rm16_CL);
 
         calculate_rm_r![u16f; u8; self; i; |d: u16, s: u8| {
-            if s&0x1f == 0 {
-                return (d, FLAGS_UNAFFECTED);
-            }
-
-            match d.checked_shl((s&0x1f) as u32) {
-                Some(v) => (
-                    v,
-                    if d & (0x8000u16.wrapping_shr(((s-1) & 0x1f) as u32)) == 0 {0} else {FLAG_CF} |
-                    if (d & 0x4000 == 0) == (d & 0x8000 == 0) {0} else {FLAG_OF}
-                ),
-                None => {
-                    (0, if s == 16 && d & 1 == 0 {0} else {FLAG_CF})
-                }
-            }
+            let (result, flags) = shl_bits(d as u64, s, 16);
+            (result as u16, flags)
         }; (set: FLAG_PF | FLAG_ZF | FLAG_SF; clear: FLAG_CF | FLAG_OF)]
     }
 
@@ -258,20 +207,8 @@ impl Axecutor {
         debug_assert_eq!(i.code(), Shl_rm32_CL);
 
         calculate_rm_r![u32f; u8; self; i; |d: u32, s: u8| {
-            if s&0x1f == 0 {
-                return (d, FLAGS_UNAFFECTED);
-            }
-
-            match d.checked_shl((s&0x1f) as u32) {
-                Some(v) => (
-                    v,
-                    if d & (0x80000000u32.wrapping_shr(((s-1) & 0x1f) as u32)) == 0 {0} else {FLAG_CF} |
-                    if (d & 0x40000000 == 0) == (d & 0x80000000 == 0) {0} else {FLAG_OF}
-                ),
-                None => {
-                    panic!("u8 s & 0x1f should never be >=32");
-                }
-            }
+            let (result, flags) = shl_bits(d as u64, s, 32);
+            (result as u32, flags)
         }; (set: FLAG_PF | FLAG_ZF | FLAG_SF; clear: FLAG_CF | FLAG_OF)]
     }
 
@@ -282,20 +219,8 @@ impl Axecutor {
         debug_assert_eq!(i.code(), Shl_rm64_CL);
 
         calculate_rm_r![u64f; u8; self; i; |d: u64, s: u8| {
-            if s&0x3f == 0 {
-                return (d, FLAGS_UNAFFECTED);
-            }
-
-            match d.checked_shl((s&0x3f) as u32) {
-                Some(v) => (
-                    v,
-                    if d & (0x8000000000000000u64.wrapping_shr(((s-1) & 0x3f) as u32)) == 0 {0} else {FLAG_CF} |
-                    if (d & 0x8000000000000000) == ((d & 0x4000000000000000)<<1) {0} else {FLAG_OF}
-                ),
-                None => {
-                    panic!("u8 s & 0x3f should never be >=64");
-                }
-            }
+            let (result, flags) = shl_bits(d as u64, s, 64);
+            (result as u64, flags)
         }; (set: FLAG_PF | FLAG_ZF | FLAG_SF; clear: FLAG_CF | FLAG_OF)]
     }
 }
